@@ -4,7 +4,13 @@
 
 package cluster
 
-import "github.com/lni/dragonboat/v4"
+import (
+	"encoding/json"
+
+	"github.com/hashicorp/memberlist"
+	"github.com/lni/dragonboat/v4"
+	"go.uber.org/zap"
+)
 
 // Verification-only export shims (build tag verif). They add no behaviour: they make the unexported
 // shard view and the gossip delegate's state exchange callable from the external verification harness.
@@ -34,4 +40,20 @@ func (v *VerifView) MergeRemoteState(b []byte) { v.d.MergeRemoteState(b, false) 
 // VerifMerge exposes mergeShardInfo.
 func VerifMerge(current, update dragonboat.ShardView) dragonboat.ShardView {
 	return mergeShardInfo(current, update)
+}
+
+// VerifMembership delivers a memberlist membership event ("join", "leave" or "update" of the member with the
+// given node id) to a Cluster that shares this view, exactly as memberlist calls the event delegate.
+func (v *VerifView) VerifMembership(event string, nodeID uint64) {
+	c := &Cluster{shardView: v.d.shardView, infoF: v.d.infoF, log: zap.NewNop().Sugar(), not: make(chan struct{}, 1)}
+	meta, _ := json.Marshal(NodeMeta{ID: "verif", NodeID: nodeID})
+	n := &memberlist.Node{Name: "verif", Meta: meta}
+	switch event {
+	case "join":
+		c.NotifyJoin(n)
+	case "leave":
+		c.NotifyLeave(n)
+	case "update":
+		c.NotifyUpdate(n)
+	}
 }
